@@ -7,6 +7,8 @@ import (
 	"go/types"
 	"path/filepath"
 	"strings"
+
+	"golang.org/x/tools/go/ssa"
 )
 
 // ---------- sync
@@ -117,6 +119,41 @@ func init() {
 		r.release(fr, p)
 		return nil
 	}, "(*sync.Once).Do")
+
+	// sync.Pool: a per-pool LIFO of the values put back; Get pops one or calls New. (The runtime's
+	// per-P caches and GC-driven eviction are not modelled: a pooled value is always reused, which is
+	// the behaviour under which aliasing through a pool shows.)
+	reg(func(r *Run, fr *frame, args []Value) Value {
+		p := args[0].(*Value)
+		if q := r.pools[p]; len(q) > 0 {
+			v := q[len(q)-1]
+			r.pools[p] = q[:len(q)-1]
+			return v
+		}
+		st, ok := (*p).(Struct)
+		if !ok || len(st) < 6 {
+			fr.unsupported("sync.Pool cell %T", *p)
+		}
+		switch nf := st[5].(type) {
+		case *Closure:
+			if nf != nil {
+				return r.call(fr, 0, nf, nil)
+			}
+		case *ssa.Function:
+			if nf != nil {
+				return r.call(fr, 0, nf, nil)
+			}
+		}
+		return r.zero(fr.fn.Signature.Results().At(0).Type())
+	}, "(*sync.Pool).Get")
+	reg(func(r *Run, fr *frame, args []Value) Value {
+		p := args[0].(*Value)
+		if r.pools == nil {
+			r.pools = map[*Value][]Value{}
+		}
+		r.pools[p] = append(r.pools[p], args[1])
+		return nil
+	}, "(*sync.Pool).Put")
 
 	// sync/atomic primitives operate directly on the cell
 	ld := func(r *Run, fr *frame, args []Value) Value {
